@@ -84,8 +84,10 @@ impl GenCfg {
     }
 }
 
-pub fn gen_cfg(rng: &mut Rng, kind: &'static str, profile: Profile) -> GenCfg {
+pub fn gen_cfg(rng: &mut Rng, kind: &'static str, profile: Profile, capmode: &str) -> GenCfg {
     let cap = match profile {
+        _ if capmode == "none" => None,
+        _ if capmode == "large" => Some(rng.pick(&[100_000u64, 1_000_000])),
         Profile::Big => Some(rng.pick(&[129u64, 150, 200, 256])),
         Profile::Batch => rng.pick(&[None, Some(1000u64), Some(400), Some(130)]),
         Profile::Scan => Some(rng.pick(&[2u64, 3, 4, 5, 8])),
@@ -160,9 +162,9 @@ pub fn gen_cfg(rng: &mut Rng, kind: &'static str, profile: Profile) -> GenCfg {
 
 /// One generated case: the cfg line followed by op lines (a `snap` after each op when
 /// `white_box`).
-pub fn gen_case(seed: u64, kind: &'static str, profile: Profile, len: usize, white_box: bool) -> Vec<String> {
+pub fn gen_case(seed: u64, kind: &'static str, profile: Profile, len: usize, white_box: bool, capmode: &str) -> Vec<String> {
     let mut rng = Rng::new(seed);
-    let cfg = gen_cfg(&mut rng, kind, profile);
+    let cfg = gen_cfg(&mut rng, kind, profile, capmode);
     let mut out = vec![cfg.line(seed, profile)];
     let sync = kind == "sync";
     let nkeys: u64 = match profile {
